@@ -16,6 +16,9 @@ import (
 	"golang.org/x/tools/go/ssa"
 )
 
+var qSites = map[string]int{}
+var qsMu sync.Mutex
+
 type abortKind int
 
 const (
@@ -70,7 +73,8 @@ type Path struct {
 	decisions []int64
 	nDec      int
 	taken     []int64
-	model     Model
+	models    []*pModel
+	pending   []pendingCheck
 	vars      []*Term
 
 	known     map[*Term]uint64
@@ -97,12 +101,12 @@ type Path struct {
 	obs *Observers // optional heap observers (C13/C15/C16/C17/C18)
 	cov map[*ssa.BasicBlock]bool
 
-	collTable map[string][]*Term // collation stub: original string -> key bytes
-	poolFresh bool
-	assumed   int
+	collTable  map[string][]*Term // collation stub: original string -> key bytes
+	poolFresh  bool
+	assumed    int
 	solverWall time.Duration
-	asserts   int
-	fnsSeen   map[*ssa.Function]bool
+	asserts    int
+	fnsSeen    map[*ssa.Function]bool
 }
 
 func (p *Path) abort(kind abortKind, format string, args ...interface{}) {
@@ -138,377 +142,6 @@ func shortFile(f string) string {
 		return f[i+1:]
 	}
 	return f
-}
-
-// ---------------------------------------------------------------------------------------------
-// Path condition, feasibility, forking
-
-func (p *Path) simp(c *Term) *Term {
-	if c.op == OConst || len(p.known) == 0 {
-		return c
-	}
-	return p.ts.Subst(c, p.known, p.substMemo)
-}
-
-func (p *Path) learn(c *Term) {
-	switch c.op {
-	case OAnd:
-		p.learn(c.a)
-		p.learn(c.b)
-		return
-	case ONot:
-		if c.a.op == OOr {
-			p.learn(p.ts.Not(c.a.a))
-			p.learn(p.ts.Not(c.a.b))
-			return
-		}
-		if _, ok := p.known[c.a]; !ok {
-			p.known[c.a] = 0
-			p.substMemo = map[*Term]*Term{}
-		}
-		return
-	case OEq:
-		if c.b.op == OConst && c.a.op != OConst {
-			if _, ok := p.known[c.a]; !ok {
-				p.known[c.a] = c.b.k
-				p.substMemo = map[*Term]*Term{}
-			}
-		}
-	}
-	if c.op != OConst {
-		if _, ok := p.known[c]; !ok {
-			p.known[c] = 1
-			p.substMemo = map[*Term]*Term{}
-		}
-	}
-}
-
-func (p *Path) addPC(c *Term) {
-	if c.IsTrue() {
-		return
-	}
-	p.pc = append(p.pc, c)
-	if p.model != nil && Eval(c, p.model) == 0 {
-		p.model = nil
-	}
-	p.learn(c)
-}
-
-func (p *Path) flushPC() {
-	if !p.inScope {
-		p.solver.BeginPath()
-		p.inScope = true
-	}
-	for ; p.declVars < len(p.vars); p.declVars++ {
-		p.solver.ensure(p.vars[p.declVars])
-	}
-	for ; p.asserted < len(p.pc); p.asserted++ {
-		if err := p.solver.Assert(p.pc[p.asserted]); err != nil {
-			p.abort(abInconclusive, "smt encoding: %v", err)
-		}
-	}
-}
-
-// feasible: is PC ∧ c satisfiable? Returns a model when one is cheaply available.
-func (p *Path) feasible(c *Term) (bool, Model) {
-	c = p.simp(c)
-	if c.IsFalse() {
-		return false, nil
-	}
-	if p.model != nil && Eval(c, p.model) == 1 {
-		return true, p.model
-	}
-	if c.IsTrue() && p.model != nil {
-		return true, p.model
-	}
-	tq := time.Now()
-	p.flushPC()
-	var extra *Term
-	if !c.IsTrue() {
-		extra = c
-	}
-	res, m, msg := p.solver.CheckWith(extra, p.vars)
-	p.solverWall += time.Since(tq)
-	switch res {
-	case RSat:
-		if m == nil {
-			m = Model{}
-		}
-		return true, m
-	case RUnsat:
-		return false, nil
-	case RUnknown:
-		p.sawUnknown = true
-		p.abort(abInconclusive, "solver returned unknown (%s) at %s", msg, p.where())
-	}
-	p.abort(abInconclusive, "solver error: %s at %s", msg, p.where())
-	return false, nil
-}
-
-func (p *Path) replaying() bool { return p.nDec < len(p.decisions) }
-
-// branch decides a symbolic boolean, forking if both sides are feasible.
-func (p *Path) branch(c *Term) bool {
-	c = p.simp(c)
-	if c.op == OConst {
-		return c.k != 0
-	}
-	if p.replaying() {
-		d := p.decisions[p.nDec]
-		p.nDec++
-		p.taken = append(p.taken, d)
-		if d == 1 {
-			p.addPC(c)
-		} else {
-			p.addPC(p.ts.Not(c))
-		}
-		if p.nDec == len(p.decisions) && p.model != nil {
-			// the work item's model was computed for exactly this prefix
-		}
-		return d == 1
-	}
-	nc := p.ts.Not(c)
-	ft, mt := p.feasible(c)
-	ff, mf := p.feasible(nc)
-	switch {
-	case ft && ff:
-		// prefer the side the current model satisfies
-		takeTrue := true
-		if p.model != nil && Eval(c, p.model) == 0 {
-			takeTrue = false
-		}
-		if takeTrue {
-			p.enqueueAlt(0, mf)
-			p.taken = append(p.taken, 1)
-			p.nDec++
-			p.setModel(mt)
-			p.addPC(c)
-			return true
-		}
-		p.enqueueAlt(1, mt)
-		p.taken = append(p.taken, 0)
-		p.nDec++
-		p.setModel(mf)
-		p.addPC(nc)
-		return false
-	case ft:
-		p.taken = append(p.taken, 1)
-		p.nDec++
-		p.setModel(mt)
-		p.addPC(c)
-		return true
-	case ff:
-		p.taken = append(p.taken, 0)
-		p.nDec++
-		p.setModel(mf)
-		p.addPC(nc)
-		return false
-	}
-	p.abort(abKilled, "infeasible path")
-	return false
-}
-
-func (p *Path) setModel(m Model) {
-	if m != nil {
-		p.model = m
-	}
-}
-
-func (p *Path) enqueueAlt(d int64, m Model) {
-	dec := make([]int64, len(p.taken)+1)
-	copy(dec, p.taken)
-	dec[len(p.taken)] = d
-	p.newWork = append(p.newWork, WorkItem{scn: p.scn, decisions: dec, model: m})
-}
-
-// choose: n-way fork over mutually exclusive conditions; returns the index taken.
-func (p *Path) choose(alts []*Term) int {
-	for i := range alts {
-		alts[i] = p.simp(alts[i])
-	}
-	// constant-true alternative short-circuits
-	nonFalse := -1
-	cnt := 0
-	for i, a := range alts {
-		if a.IsTrue() {
-			return i
-		}
-		if !a.IsFalse() {
-			nonFalse = i
-			cnt++
-		}
-	}
-	if cnt == 0 {
-		p.abort(abKilled, "choose: no alternative")
-	}
-	_ = nonFalse
-	if p.replaying() {
-		d := int(p.decisions[p.nDec])
-		p.nDec++
-		p.taken = append(p.taken, int64(d))
-		p.addPC(alts[d])
-		return d
-	}
-	type fe struct {
-		i int
-		m Model
-	}
-	var fs []fe
-	for i, a := range alts {
-		if a.IsFalse() {
-			continue
-		}
-		if ok, m := p.feasible(a); ok {
-			fs = append(fs, fe{i, m})
-		}
-	}
-	if len(fs) == 0 {
-		p.abort(abKilled, "choose: infeasible")
-	}
-	for _, f := range fs[1:] {
-		p.enqueueAlt(int64(f.i), f.m)
-	}
-	p.taken = append(p.taken, int64(fs[0].i))
-	p.nDec++
-	p.setModel(fs[0].m)
-	p.addPC(alts[fs[0].i])
-	return fs[0].i
-}
-
-// concretize forks over the feasible values of t.
-func (p *Path) concretize(t *Term, what string) uint64 {
-	t = p.simp(t)
-	if t.op == OConst {
-		return t.k
-	}
-	if p.replaying() {
-		v := uint64(p.decisions[p.nDec])
-		p.nDec++
-		p.taken = append(p.taken, int64(v))
-		p.addPC(p.ts.Eq(t, p.ts.Const(t.w, v)))
-		return v
-	}
-	type fe struct {
-		v uint64
-		m Model
-	}
-	var fs []fe
-	excl := p.ts.True
-	for {
-		ok, m := p.feasible(excl)
-		if !ok {
-			break
-		}
-		v := Eval(t, m)
-		fs = append(fs, fe{v, m})
-		excl = p.ts.And(excl, p.ts.Ne(t, p.ts.Const(t.w, v)))
-		if len(fs) > 300 {
-			p.abort(abInconclusive, "concretize(%s): more than 300 values at %s", what, p.where())
-		}
-	}
-	if len(fs) == 0 {
-		p.abort(abKilled, "concretize: infeasible")
-	}
-	for _, f := range fs[1:] {
-		p.enqueueAlt(int64(f.v), f.m)
-	}
-	p.taken = append(p.taken, int64(fs[0].v))
-	p.nDec++
-	p.setModel(fs[0].m)
-	p.addPC(p.ts.Eq(t, p.ts.Const(t.w, fs[0].v)))
-	return fs[0].v
-}
-
-// check: an assertion. If PC ∧ ¬c is satisfiable a violation is recorded; execution continues under c.
-func (p *Path) check(c *Term, kind, tag string) {
-	c = p.simp(c)
-	if c.IsTrue() {
-		return
-	}
-	if p.replaying() {
-		// assertions inside the replayed prefix were already examined by the path that forked us
-		p.addPCOrKill(c)
-		return
-	}
-	nc := p.ts.Not(c)
-	bad, m := p.feasible(nc)
-	if bad {
-		p.recordViolation(kind, tag, m)
-	}
-	p.addPCOrKill(c)
-}
-
-func (p *Path) addPCOrKill(c *Term) {
-	if c.IsFalse() {
-		p.abort(abKilled, "assertion/assumption false on every model")
-	}
-	if p.replaying() {
-		p.addPC(c)
-		return
-	}
-	ok, m := p.feasible(c)
-	if !ok {
-		p.abort(abKilled, "no model satisfies the condition")
-	}
-	p.setModel(m)
-	p.addPC(c)
-}
-
-func (p *Path) fullModel(m Model) Model {
-	// make sure every nondet variable has a value
-	out := Model{}
-	for _, v := range p.vars {
-		out[v.name] = m[v.name]
-	}
-	return out
-}
-
-func (p *Path) recordViolation(kind, tag string, m Model) {
-	if p.eng.suppress != nil && p.eng.suppress(kind, tag) {
-		return
-	}
-	fm := p.fullModel(m)
-	tape := make([]TapeEntry, len(p.vars))
-	for i, v := range p.vars {
-		tape[i] = TapeEntry{W: v.w, V: fm[v.name]}
-	}
-	p.violations = append(p.violations, Violation{Kind: kind, Tag: tag, Where: p.where(), Model: fm, Tape: tape, Scn: p.scn, PCSize: len(p.pc)})
-}
-
-// fault on a concrete condition: the current path always faults here.
-func (p *Path) faultNow(tag string) {
-	if !p.replaying() {
-		_, m := p.feasible(p.ts.True)
-		if m == nil {
-			m = Model{}
-		}
-		p.recordViolation("fault", tag, m)
-	}
-	p.abort(abStop, "fault: %s", tag)
-}
-
-// faultIf: symbolic fault condition.
-func (p *Path) faultIf(c *Term, tag string) {
-	c = p.simp(c)
-	if c.IsFalse() {
-		return
-	}
-	if c.IsTrue() {
-		p.faultNow(tag)
-	}
-	p.check(p.ts.Not(c), "fault", tag)
-}
-
-func (p *Path) nondet(w uint8) *Term {
-	name := fmt.Sprintf("v%d_%d", len(p.vars), w)
-	v := p.ts.Var(name, w)
-	p.vars = append(p.vars, v)
-	if p.model != nil {
-		if _, ok := p.model[name]; !ok {
-			p.model[name] = 0
-		}
-	}
-	return v
 }
 
 // ---------------------------------------------------------------------------------------------
@@ -1785,6 +1418,11 @@ func (p *Path) doCall(fr *Frame, cc *ssa.CallCommon) Value {
 }
 
 func (p *Path) callValue(fv FuncV, args []Value) Value {
+	if len(p.eng.redirect) > 0 && fv.fn.Pkg == p.eng.pkg && !p.scn.NoSummaries {
+		if spec, ok := p.eng.redirect[fv.fn.Name()]; ok {
+			return p.callFunction(spec, args, nil)
+		}
+	}
 	if r, ok := p.intrinsic(fv.fn, args); ok {
 		return r
 	}
